@@ -112,29 +112,7 @@ def run(ck, ctx):
                       "(reset per statement) and the two constructor settings; anything else makes a statement's outcome "
                       "depend on its neighbours", f.loc(a.node) if a is not None else f.loc())
     ck.ob("T-PURE", f"statement scope: {n_pure} functions scanned", True, "lexer rules, actions and helpers", "")
-    # module-level containers holding mutable objects may be consulted (membership / get / index / iteration) but must not flow
-    # into a result: the nested objects would be shared by every statement and every parse of the process
-    for f in scope:
-        mut = {n: v for n, v in f.module.assigns.items() if _nested_mutable(v)}
-        for local, imp in f.module.imports.items():
-            r = m.resolve_symbol(f.module, local)
-            if r and r[0] == "value" and _nested_mutable(r[1].assigns.get(r[2])):
-                mut[local] = r[1].assigns[r[2]]
-        if not mut:
-            continue
-        parents = {}
-        for p in ast.walk(f.node):
-            for c in ast.iter_child_nodes(p):
-                parents[id(c)] = p
-        for n in ast.walk(f.node):
-            if isinstance(n, ast.Name) and isinstance(n.ctx, ast.Load) and n.id in mut and not S._is_local(f, n.id):
-                par = parents.get(id(n))
-                ok = isinstance(par, ast.Compare) or (isinstance(par, ast.Attribute) and par.attr in ("get", "keys", "items", "values")) \
-                    or (isinstance(par, ast.Subscript) and par.value is n and isinstance(par.ctx, ast.Load) and not _nested_mutable_value(mut[n.id])) \
-                    or isinstance(par, (ast.For, ast.comprehension))
-                ck.ob("T-ALIAS", f"{f.qual}: module-level {n.id} used by {type(par).__name__}", ok,
-                      f"{n.id} is a module-level container holding mutable objects; copying / unpacking it into a result makes every "
-                      "statement (and every parser object) share those inner objects", f.loc(n))
+    S.t_alias(ck, ctx, scope)
     # ---- line machine: what is carried from line to line
     rbw = RBW(m, cg, "self", same_object=lambda f: f.id in famids)
     pl = m.parser_method("process_line")
